@@ -19,8 +19,9 @@
              votes the Byzantine validators made public as ByzSend), run through
              Model_ConsensusNet.run_net.  [check]:
                (c1) the model's legality filter drops nothing: every vote that
-                    was delivered was in the model's soup at that moment (sent
-                    by the model of a correct node, or a ByzSend);
+                    was delivered was in the model's [csoup] at that moment (a
+                    ByzSend, or an own vote record in the synced round WAL of a
+                    correct node's model);
                (c2) every node's final model state equals the last observation
                     (status, round, step, lockedRound, locked block, ...) and
                     its decided block equals the block the real node finalized;
@@ -93,19 +94,38 @@ Definition check_node (c : Run_C02.case) : bool :=
 
 Definition byzf (l : list nat) (k : nat) : bool := existsb (Nat.eqb k) l.
 
+(* Legality of a delivery is the model's own: Model_ConsensusNet.net_step
+   ignores a node event unless every current-height vote it delivers is in
+   [csoup byz net] = the Byzantine sends + the own vote records in the synced
+   round WAL of every correct engine.  (The WAL, not the ghost history [sent]:
+   an own vote that was logged but whose broadcast was cut by a crash is put
+   back into the height vote set at the restart and can reach the network later
+   inside the POL vote list of a re-proposal — found by this correspondence on a
+   real trace; [soup] = what was broadcast vote by vote is a subset.) *)
 Section NetReplay.
   Variable n : nat.
   Variable byz : nat -> bool.
   Variable blocks : list blk.
 
+  (* one global event through net_step; [ok] records that the model's legality
+     filter dropped nothing so far *)
   Definition net_ev (acc : bool * netstate) (g : gitem) : bool * netstate :=
     let '(ok, net) := acc in
     match g with
     | GNode i e =>
-        let legal := Nat.ltb i n && legal_event (soup byz net) (t_ev e) in
+        let legal := Nat.ltb i n && legal_event (csoup byz net) (t_ev e) in
         (ok && legal, net_step n byz blocks net (NodeEv i (t_ev e, t_cut e, t_delay e)))
     | GByz v => (ok && legal_byz n byz v, net_step n byz blocks net (ByzSend v))
     end.
+
+  (* number of node events whose votes are durable but were not all broadcast one by one *)
+  Definition net_ev_strict (acc : nat * netstate) (g : gitem) : nat * netstate :=
+    let '(k, net) := acc in
+    let k' := match g with
+              | GNode i e => if legal_event (soup byz net) (t_ev e) then k else S k
+              | GByz _ => k
+              end in
+    (k', snd (net_ev (true, net) g)).
 
   Definition final_ok (net : netstate) (f : nat * obs * option N) : bool :=
     let '(i, o, d) := f in
@@ -147,6 +167,10 @@ Fixpoint net_first_illegal (n : nat) (byz : nat -> bool) (blocks : list blk) (k 
   | g :: r => let '(ok, net') := net_ev n byz blocks (true, net) g in
               if ok then net_first_illegal n byz blocks (S k) net' r else Some k
   end.
+
+Definition net_extended_only (nc : netcase) : nat :=
+  let n := N.to_nat (nc_n nc) in
+  fst (fold_left (net_ev_strict n (byzf (nc_byz nc)) (nc_blocks nc)) (nc_evs nc) (O, net_init n)).
 
 Definition where_bad_node (c : Run_C02.case) : option nat := where_bad c.
 
